@@ -94,8 +94,9 @@ def calibrate_all(qt, spec, datasets, cal=None):
   return cal
 
 
-def pipeline(spec, datasets, rules=None, recipe=None, cal=None):
-  """Runs the public API.  Exactly one of rules / recipe is given."""
+def pipeline(spec, datasets, rules=None, recipe=None, cal=None, warm_rules=None):
+  """Runs the public API.  Exactly one of rules / recipe is given.  warm_rules: rules applied, calibrated and quantized on the SAME
+  Quantizer first (outcome ignored) -- a history that must not matter when `rules` then replace them."""
   r = Run()
   content = spec.content
   d_model = digest(content)
@@ -109,6 +110,12 @@ def pipeline(spec, datasets, rules=None, recipe=None, cal=None):
         r.mutations.append('recipe')
     else:
       qt = aeq_quantizer.Quantizer(content)
+      if warm_rules:
+        try:
+          if recipes.apply_rules(qt, warm_rules):
+            qt.quantize(calibrate_all(qt, spec, datasets) if qt.need_calibration else None)
+        except Exception:  # pylint: disable=broad-except
+          pass
       r.accepted = recipes.apply_rules(qt, rules)
       if not r.accepted:
         r.phase = 'no_rule_accepted'
